@@ -77,3 +77,5 @@ pub fn verif_line_is_empty(line: &String) -> (r: bool) ensures r == (line@.len()
 /// the code record a flush starts: empty raw text, the line numbering goes on (Code::line_number(usize::MAX)), same source
 #[verifier::external_body]
 pub fn verif_fresh_code(code: &Rc<Code>) -> Rc<Code> { unimplemented!() }
+#[verifier::external_body]
+pub fn verif_ends_with_newline(line: &String) -> (r: bool) ensures r == (line@.len() > 0 && line@.last() == '\n') { line.ends_with('\n') }
